@@ -175,11 +175,11 @@ Proof. exact model_compositional_space. Qed.
     Every macro / specials / environment name the document generator of
     [harness/props/c03.py] uses is core: FMT = textbf emph textit text textrm
     textsc mathrm are transparent and take one braced argument; SYM = alpha
-    beta Gamma infty times ldots S ae LaTeX zzunknown cdot to are bare symbol
-    macros; SPC = ~ -- --- `` '' & are replaced specials; ENV = itemize
+    beta Gamma infty times ldots S ae LaTeX zzunknown cdot to phi ell epsilon
+    are bare symbol macros; SPC = ~ -- --- `` '' & are replaced specials; ENV = itemize
     enumerate zzunknownenv render their body; the paragraph break is not in the
-    text table; ACC = the accent macros ' ` dieresis ^ ~ c v hat bar vec are
-    accent formatters with one braced argument; center wraps its body in newlines; [\item] is the item
+    text table; ACC = the accent macros ' ` dieresis ^ ~ c v hat bar vec dot tilde
+    are accent formatters with one braced argument; center wraps its body in newlines; [\item] is the item
     formatter and its only argument is the optional [\[..\]]. *)
 Theorem C03_default_tables_core :
   forallb (fun nm => transparent_macro lt0 nm && one_braced_arg nm) FMT = true
